@@ -205,14 +205,25 @@ func (pe *programExecutor) executeReadOffset(instr *rhp3.InstrReadOffset, log *z
 	if err != nil {
 		return nil, nil, fmt.Errorf("failed to read length: %w", err)
 	}
+	sectorIndex := offset / rhp2.SectorSize
+	relOffset := offset % rhp2.SectorSize
+
+	// validate the offset and length: the read must stay within the sector and,
+	// if a proof is requested, cover a non-empty range of whole leaves
+	switch {
+	case length == 0:
+		return nil, nil, fmt.Errorf("read length cannot be 0")
+	case length > rhp2.SectorSize-relOffset:
+		return nil, nil, fmt.Errorf("read length %v is out of bounds", length)
+	case instr.ProofRequired && (relOffset%rhp2.LeafSize != 0 || length%rhp2.LeafSize != 0):
+		return nil, nil, fmt.Errorf("read offset (%d) and length (%d) must be multiples of %d", relOffset, length, rhp2.LeafSize)
+	}
+
 	// pay for execution
 	cost := pe.priceTable.ReadOffsetCost(length)
 	if err := pe.payForExecution(cost, costToAccountUsage(cost)); err != nil {
 		return nil, nil, fmt.Errorf("failed to pay for instruction: %w", err)
 	}
-
-	sectorIndex := offset / rhp2.SectorSize
-	relOffset := offset % rhp2.SectorSize
 
 	root, err := pe.updater.SectorRoot(sectorIndex)
 	if err != nil {
